@@ -1,24 +1,31 @@
-"""C08 — stream core (see stream_common.py and coq/Model/Stream.v)."""
+"""C08 — stream core (see stream_common.py and coq/Model/Stream.v) plus the datagram flows of the real code
+(DNS / UDP: see dgram_common.py, run_c08_dgram)."""
 import os
 import sys
 sys.path.insert(0, os.path.dirname(os.path.abspath(__file__)))
 import stream_common as sc  # noqa: E402
+import dgram_common as dc  # noqa: E402
 
 PROP = "C08"
 DRIVER_PROP = "C01"
 RULE = ("real ssnet.runonce on both tunnel ends over fake sockets, every micro-step replayed on the extracted model and the full "
         "state of both ends compared after every iteration; cases: connect refused/unreachable/timeout, reset or EPIPE on send/recv at a random operation index, failing shutdown, on either end, next to healthy flows; a case is non-trivial when at least one flow was "
-        "accepted; distinct by case seed")
-TRUSTED_BASE = sc.STREAM_TB
+        "accepted; distinct by case seed; PLUS datagram flows: the REAL server.main loop with a conforming peer, a healthy UDP association and DNS query next to 1-3 victim flows whose connect/send/recv/sendto/recvfrom fail with every errno of a 22-element set, persistently (every attempt) or transiently, probes on the healthy flows and a new query afterwards; the real client functions with the delivery of one source's replies failing at bind/sendto, persistently or once")
+TRUSTED_BASE = sc.STREAM_TB + ["datagram part: the fake listener / reply / resolver sockets, select() and the two clocks (time.time and time.monotonic, different epochs) of harness/props/dgram_common.py stand for the kernel; it is an oracle on the real code only (the model comparison of the same code is done by ./check C10 and C11)"]
 ASSUMPTIONS = sc.STREAM_ASSUMPTIONS
 PROFILES = ["fault","fault","wrap","close"]
 
 
 def correspondence(ctx):
     sc.stream_check(ctx, PROP, PROFILES, 120, 2500)
+    # socket faults of DNS / UDP flows on both ends (server.py DnsProxy / UdpProxy, client.py dns_done / udp_done)
+    dc.run_c08_dgram(ctx)
+    ctx.programs = ctx.evaluations
 
 
 def replay(ctx, rp):
+    if rp.get("replay", {}).get("script"):
+        return bool(dc.replay_c08_dgram(rp))
     return sc.stream_replay(ctx, rp, PROP)
 
 
